@@ -98,6 +98,14 @@ def grid_spec(rng: random.Random, d: int, min_size: int = 2) -> dict:
     spec["direction"] = direction
     if len(set(spec["spacing"])) == 1 and rng.random() < 0.8:
         spec["spacing"] = [round(rng.uniform(0.1, 10.0), 3) for _ in range(d)]
+    r = rng.random()
+    if r < 0.15:
+        # header values a writer may regard as defaults: origin exactly 0 (and, half of the time, unit spacing / identity)
+        spec.pop("center", None)
+        spec["origin"] = [0.0] * d
+        if r < 0.07:
+            spec["spacing"] = [1.0] * d
+            spec["direction"] = [[1.0 if i == j else 0.0 for j in range(d)] for i in range(d)]
     return spec
 
 
